@@ -129,9 +129,11 @@ class EarlyStopping(CallbackBase):
         ) - self.value_getter(self.quantity_name)
 
     def _relative_change(self):
-        relative_change = self._change_in_metric() / self.value_getter(
-            self.quantity_name, -(self.patience + 1)
-        )
+        reference = self.value_getter(self.quantity_name, -(self.patience + 1))
+        if reference == 0:
+            # relative change w.r.t. zero is unbounded: never counts as converged
+            return np.inf
+        relative_change = self._change_in_metric() / reference
         return abs(relative_change)
 
     def _absolute_change(self):
